@@ -502,3 +502,65 @@ func TestC01Speculation(t *testing.T) {
 	}
 	run.Exhaustive()
 }
+
+// c01ShortTexts: short texts whose *value* is extreme, not their length.
+func c01ShortTexts() []string {
+	var out []string
+	for d := 1; d <= 12; d++ {
+		nines := strings.Repeat("9", d)
+		out = append(out, "1e"+nines, "1e-"+nines, "1.5E+"+nines, ".1e"+nines, "0.000001e-"+nines, nines+"e"+nines, "1_0e"+nines,
+			"[1e"+nines+", 1e-"+nines+"]", "f(2.5e-"+nines+") + 1e"+nines, "1e"+nines+"x", "'a' + 1e+"+nines+" ? 1e"+nines+" : .5e-"+nines)
+	}
+	for _, s := range []string{"1e2147483647", "1e2147483648", "1e-2147483648", "1e4294967296", "1e9223372036854775807", "1e-9223372036854775808", "1e18446744073709551616",
+		"99999999999999999999999999999999999999e99999999", "0.00000000000000000000000000000000000001e-99999999", "1e0000000000000000000000001", "1e+00000000099999999"} {
+		out = append(out, s, "["+s+"]", "x == "+s)
+	}
+	return out
+}
+
+func checkShortText(text string) string {
+	if msg, _ := checkTotal([]byte(text), 20*time.Second); msg != "" {
+		return fmt.Sprintf("%q: %s", text, msg)
+	}
+	// the same number of bytes of an ordinary formula is the yardstick
+	plain := []byte(strings.Repeat("a+1*", len(text)/4+1)[:len(text)/4*4] + "b")
+	t := timeParse([]byte(text), 5)
+	if t > 5*time.Millisecond {
+		base := timeParse(plain, 5)
+		t = timeParse([]byte(text), 7)
+		if t > 5*time.Millisecond && float64(t) > 200*float64(base) {
+			return fmt.Sprintf("parse time not proportional to length: the %d bytes %q take %v (best of 7), %d bytes of an ordinary formula %v", len(text), text, t, len(plain), base)
+		}
+	}
+	return ""
+}
+
+func init() {
+	h.RegisterReplay("c01-short", func(raw json.RawMessage) string {
+		c, err := h.Decode[textCase](raw)
+		if err != nil {
+			return "bad replay: " + err.Error()
+		}
+		return checkShortText(c.text())
+	})
+}
+
+// TestC01ShortTexts: the time a parse takes follows the length of the text, not the numbers written in it.
+func TestC01ShortTexts(t *testing.T) {
+	texts := c01ShortTexts()
+	run := h.Begin("C01", "short-texts", fmt.Sprintf("enumerated: %d texts of at most 100 bytes whose literals have extreme values (exponents of 1..12 nines, both signs, around 2^31 / 2^32 / 2^63 / 2^64, long coefficients, zero-padded exponents), alone and inside lists, calls, comparisons and conditionals; oracle: outcome contract under a 20 s watchdog, and time proportional to length: violation only if best-of-7 > 5 ms and > 200 x the time of an ordinary formula of the same length; every text non-trivial", len(texts)))
+	defer run.End(t)
+	for i, text := range texts {
+		if !h.Mine(int64(i)) || run.NViolations() >= 1 {
+			continue
+		}
+		run.Count(true, "")
+		if i%29 == 0 {
+			run.Sample("short", text)
+		}
+		if msg := checkShortText(text); msg != "" {
+			run.Fail("c01-short", mkTextCase(text, ""), msg)
+		}
+	}
+	run.Exhaustive()
+}
